@@ -609,3 +609,26 @@ pub fn split_id(id: Id) -> (PageIndex, SlotIndex) {
     let page = index >> PAGE_LEN_BITS;
     (PageIndex::new(page), SlotIndex::new(slot))
 }
+
+/// Verification hook H3: page/slot packing on plain integers.
+#[cfg(salsa_rs_salsa_verif)]
+pub(crate) mod verif_k {
+    use super::{PageIndex, SlotIndex};
+    use crate::Id;
+
+    pub(crate) fn vk_page_consts() -> [usize; 4] {
+        [
+            super::PAGE_LEN_BITS,
+            super::PAGE_LEN,
+            super::PAGE_LEN_MASK,
+            super::MAX_PAGES,
+        ]
+    }
+    pub(crate) fn vk_make_id(page: usize, slot: usize) -> Id {
+        super::make_id(PageIndex(page), SlotIndex(slot))
+    }
+    pub(crate) fn vk_split_id(id: Id) -> (usize, usize) {
+        let (page, slot) = super::split_id(id);
+        (page.0, slot.0)
+    }
+}
